@@ -177,6 +177,18 @@ def run_c19(rep):
     fam_browser.bundle_check(rep, sizes(rep, 6, 20), rep.seed)
 
 
+def run_c16(rep):
+    import fam_share
+    n, ops = sizes(rep, (200, 14), (3000, 40))
+    fam_share.share_family(rep, n, ops)
+    fam_share.cross_process(rep, rep.seed, *sizes(rep, (40, 12, (0, 1)), (300, 30, (0, 1, 2, 3, 4, 5, 6, 7))))
+    # the model side of the tie: an ordinary play family (the model is a function of story + calls)
+    n2, ops2 = sizes(rep, (200, 14), (3000, 40))
+    families.play_family(rep, n2, ops2, features=dict(hooks=0.4, join=0.4, render=0.5),
+                         weights=dict(choose=60, save=10, load=6, fresh=4, undo=8, redo=5, read=5),
+                         oracle_names=[], label="c16-play")
+
+
 # ------------------------------------------------------------------------------------------------ registry
 
 PROPS = {
@@ -377,6 +389,20 @@ PROPS = {
                    "navigation, undo/redo and save/load of the browser copy are tied to the model's browser variant by "
                    "correspondence and to the main engine by the differential oracle (partial: the Pyodide/JS half of a "
                    "bundle is not modelled)",
+    ),
+    "C16": dict(
+        theorems=["Bardic.Own.regions_separate", "Bardic.Own.step_inv", "Bardic.Own.init_inv", "Bardic.Own.story_root_constant",
+                  T + "run_deterministic", T + "storyWrites_none", T + "save_doc"],
+        run=run_c16,
+        rule="generated stories and histories: run twice; two engines built on ONE story object driven under a random "
+             "interleaving vs solo runs; the story deep-compared before/after; a save document taken at a random call is "
+             "id-walked against the live state and hooks, deep-compared after later play, and scribbled over after being "
+             "loaded; compile + play + save repeated in subprocesses with different PYTHONHASHSEED and compared byte for byte",
+        level_text="proof: regions_separate — in the ownership model of the engines' copy discipline (deep copies on snapshot, "
+                   "save and load; restore moves a snapshot's containers) no region is ever reachable from two roots, and the "
+                   "story root is never replaced, for every history; storyWrites_none — kernel-checked over the table of "
+                   "alias-into-the-story mutation sites re-extracted from both engines on every run (empty); the model being a "
+                   "function, determinism is definitional there and is established for the code by the differential runs",
     ),
 }
 
